@@ -44,7 +44,13 @@ const (
 	// goroutines, so that B's handlers for the same broadcast overlap, as libp2p streams do). A
 	// duplicate that slipped through a non-atomic filter would be counted in place of C. Both rounds.
 	modeConcurrentTargeted
-	numModes
+	numModes // the modes above are picked by the PRNG
+
+	// modeFaultHold (transport-fault ceremonies, see fault_test.go): eager random order, except that
+	// peer C's round-R broadcast is kept from the faulted node B until B's retried broadcast was seen
+	// on the wire and all other peers' round-R broadcasts were handled by B, and then until B is seen
+	// to move on (round-2 signature request on the wire / B returned) or a short bounded delay passed.
+	modeFaultHold = numModes
 )
 
 // Re-delivery profiles (overlay on every mode): when clones of already delivered one-way
@@ -83,7 +89,7 @@ type redoItem struct {
 const maxHold = 800 * time.Millisecond
 
 var modeNames = [...]string{"eager-random", "eager-lifo", "batch-shuffle", "batch-reverse", "laggard-sender",
-	"laggard-receiver", "class-priority", "receiver-priority", "sender-priority", "targeted-redelivery", "targeted-concurrent"}
+	"laggard-receiver", "class-priority", "receiver-priority", "sender-priority", "targeted-redelivery", "targeted-concurrent", "fault-hold"}
 
 type delivery struct {
 	Seq   int64  `json:"seq"`
@@ -121,7 +127,12 @@ type sched struct {
 	p2pDone    map[[2]int]bool // {to, from}: the FROST round-1 p2p share was handled
 	burst      int             // copies per concurrent group at the targeted receiver (0: 1..3 as everywhere)
 	msgDur     time.Duration   // running estimate of one broadcast handler execution (scheduler goroutine only)
-	nNodes     int
+	// transport-fault mode
+	flt      *faultPlan
+	fltSince time.Time     // C's broadcast first seen held
+	fltCond  time.Time     // release conditions first seen true
+	returned []atomic.Bool // node i's ceremony function returned (set by the driver)
+	nNodes   int
 
 	sent atomic.Int64
 	done atomic.Int64
@@ -142,9 +153,13 @@ type sched struct {
 	tgtCompleted int
 	tgtAbandoned int
 	tgtWhy       string
-	concGroups   int // concurrent groups delivered
-	concPairs    int // pairs of copies of one message whose handler executions overlapped
-	barriers     int // concurrent groups lined up by protoBarrier
+	concGroups   int         // concurrent groups delivered
+	concPairs    int         // pairs of copies of one message whose handler executions overlapped
+	barriers     int         // concurrent groups lined up by protoBarrier
+	fltMsgSends  map[int]int // round -> broadcast messages node B put on the wire
+	fltNeed      int         // B's round-R message count that proves the retried broadcast is out
+	fltSigR2     bool        // B's round-2 signature request was seen on the wire
+	fltReleased  string      // why C's broadcast was released
 
 	// logical clock over sends and completed deliveries (pedersen pubkey-channel analysis)
 	tick        int64
@@ -164,6 +179,7 @@ func newSched(net *fakenet.Net, ids []peer.ID, rng *rand.Rand, mode int, patienc
 		prio: map[string]int{}, wake: make(chan struct{}, 1), stop: make(chan struct{}), fin: make(chan struct{}),
 		classes: map[string]int{}, dupProfile: dupProfile, dupBudget: dupBudget, dupAll: dupAll, dupUsed: map[int]int{},
 		classCache: map[*fakenet.Envelope]string{}, redeliv: map[string]int{}, tgtA: -1, msgDone: map[[3]int]bool{}, p2pDone: map[[2]int]bool{}, nNodes: len(ids),
+		fltMsgSends: map[int]int{}, returned: make([]atomic.Bool, len(ids)),
 		r1LastSend: map[int]int64{}, r1Sends: map[int]int{}, r2Sends: map[int]int{}, r1Delivered: map[int][]int64{}, r1DupsTo: map[int]int{},
 	}
 	// targeted mode: receiver B and laggard sender C (distinct); A is whoever is fast
@@ -177,6 +193,16 @@ func newSched(net *fakenet.Net, ids []peer.ID, rng *rand.Rand, mode int, patienc
 	s.settle = []time.Duration{200 * time.Microsecond, time.Millisecond, 4 * time.Millisecond}[rng.Intn(3)]
 	net.SetPolicy(func(e *fakenet.Envelope) fakenet.Verdict {
 		s.born.Store(e, time.Now())
+		if f := s.flt; f != nil && s.idx[e.From] == f.B {
+			cl := classOf(e)
+			s.mu.Lock()
+			if strings.HasPrefix(cl, "msg:") {
+				s.fltMsgSends[roundOf(cl)]++
+			} else if cl == "sig:round2/cast" {
+				s.fltSigR2 = true
+			}
+			s.mu.Unlock()
+		}
 		if !e.Duplex {
 			cl := classOf(e)
 			s.mu.Lock()
@@ -272,8 +298,82 @@ func (s *sched) class(e *fakenet.Envelope) string {
 // isRound1Msg: a first-round reliable-broadcast message (FROST round1/cast, pedersen node_pubkeys).
 func isRound1Msg(class string) bool { return strings.HasPrefix(class, "msg:") && roundOf(class) == 1 }
 
+// noteFault is the fault plan's callback: it fixes how many round-R messages of B on the wire
+// prove that B's retried broadcast went out (those of the failed attempt plus n-1).
+func (s *sched) noteFault() {
+	s.mu.Lock()
+	s.fltNeed = s.fltMsgSends[s.flt.Round] + s.nNodes - 1
+	s.mu.Unlock()
+}
+
+func (s *sched) setReleased(why string) {
+	s.mu.Lock()
+	s.fltReleased = why
+	s.mu.Unlock()
+}
+
+// faultRelease decides whether C's held broadcast may reach B (scheduler goroutine only).
+func (s *sched) faultRelease() bool {
+	f := s.flt
+	if !f.hasFired() {
+		return false
+	}
+	s.mu.Lock()
+	out := s.fltNeed > 0 && s.fltMsgSends[f.Round] >= s.fltNeed
+	sigR2 := s.fltSigR2
+	s.mu.Unlock()
+	if !out {
+		return false
+	}
+	for x := 0; x < s.nNodes; x++ {
+		if x != f.B && x != f.C && !s.msgDone[[3]int{f.B, f.Round, x}] {
+			return false
+		}
+	}
+	if s.fltCond.IsZero() {
+		s.fltCond = time.Now()
+	}
+	switch {
+	case f.Round == 1 && sigR2:
+		s.setReleased("B-started-round-2")
+	case f.Round == 2 && s.returned[f.B].Load():
+		s.setReleased("B-returned")
+	case time.Since(s.fltCond) > 500*time.Millisecond:
+		s.setReleased("bounded-delay")
+	default:
+		return false
+	}
+
+	return true
+}
+
 func (s *sched) heldBack(e *fakenet.Envelope) bool {
 	switch s.mode {
+	case modeFaultHold:
+		f := s.flt
+		if s.tgtPhase != 0 || f.Round == 0 || s.idx[e.From] != f.C || s.idx[e.To] != f.B {
+			return false
+		}
+		cl := s.class(e)
+		if !strings.HasPrefix(cl, "msg:") || roundOf(cl) != f.Round {
+			return false
+		}
+		if s.fltSince.IsZero() {
+			s.fltSince = time.Now()
+		}
+		if s.faultRelease() {
+			s.tgtPhase = 1
+
+			return false
+		}
+		if time.Since(s.fltSince) > 8*time.Second {
+			s.tgtPhase = 1
+			s.setReleased("hold-cap")
+
+			return false
+		}
+
+		return true
 	case modeRedeliverTargeted:
 		return s.tgtPhase == 0 && s.idx[e.From] == s.tgtC && s.idx[e.To] == s.tgtB && isRound1Msg(s.class(e))
 	case modeConcurrentTargeted:
@@ -365,6 +465,9 @@ func (s *sched) run() {
 		var oldestAge time.Duration
 		heldSeen := false
 		for _, e := range pend {
+			if s.mode == modeFaultHold && s.heldBack(e) {
+				continue // no real-time timeout is tripped by holding a one-way message; own cap inside heldBack
+			}
 			if (s.mode == modeRedeliverTargeted || s.mode == modeConcurrentTargeted) && s.heldBack(e) {
 				heldSeen = true
 				// C's one-way broadcast to B: holding it trips no timeout; own, longer cap
@@ -401,6 +504,11 @@ func (s *sched) run() {
 				elig = append(elig, e)
 			}
 		}
+		if len(elig) == 0 && s.mode == modeFaultHold {
+			s.idle() // the hold is ended by faultRelease or its cap (heldBack)
+
+			continue
+		}
 		if len(elig) == 0 && (s.mode == modeRedeliverTargeted || s.mode == modeConcurrentTargeted) {
 			if len(held) > 0 && settled(10*time.Second) {
 				s.abandonTarget("nothing-moved") // nothing else moves and no faster sender showed up
@@ -430,7 +538,7 @@ func (s *sched) run() {
 		}
 
 		switch s.mode {
-		case modeEagerRandom, modeLaggardSender, modeLaggardRecv, modeConcurrentTargeted:
+		case modeEagerRandom, modeLaggardSender, modeLaggardRecv, modeConcurrentTargeted, modeFaultHold:
 			s.deliver(elig[s.rng.Intn(len(elig))])
 		case modeRedeliverTargeted:
 			e := elig[s.rng.Intn(len(elig))]
@@ -863,6 +971,7 @@ type schedStats struct {
 	ConcGroups   int            `json:"concurrent_duplicate_groups"`
 	ConcPairs    int            `json:"concurrent_duplicate_pairs"`
 	Barriers     int            `json:"concurrent_groups_lined_up_at_callback"`
+	FaultHeld    string         `json:"fault_hold_released_because,omitempty"`
 }
 
 func (s *sched) stats() schedStats {
@@ -883,7 +992,7 @@ func (s *sched) stats() schedStats {
 	return schedStats{Mode: modeNames[s.mode], Victim: s.victim, Sent: s.sent.Load(), Delivered: s.done.Load(),
 		Inversions: s.inversions, RoundOverlap: s.roundOverlap, LeftInFlight: s.leftInFlight, AgedOut: s.agedOut, MaxPool: s.maxPool, Classes: cl,
 		DupProfile: dupNames[s.dupProfile], Redeliveries: rd, RedelivTotal: total, TargetB: s.tgtB, TargetC: s.tgtC,
-		TgtCompleted: s.tgtCompleted, TgtAbandoned: s.tgtAbandoned, TgtWhy: s.tgtWhy, ConcGroups: s.concGroups, ConcPairs: s.concPairs, Barriers: s.barriers}
+		TgtCompleted: s.tgtCompleted, TgtAbandoned: s.tgtAbandoned, TgtWhy: s.tgtWhy, ConcGroups: s.concGroups, ConcPairs: s.concPairs, Barriers: s.barriers, FaultHeld: s.fltReleased}
 }
 
 // orderHash identifies the schedule: the sequence of (from, to, class) deliveries.
